@@ -325,6 +325,11 @@ impl tower::Service<Request<Bytes>> for HarnessService {
             .get(H_SCRIPT)
             .and_then(|s| Script::decode(s))
             .unwrap_or_default();
+        let held_ref = if req.headers().contains_key("vhold") {
+            req.extensions().get::<anemo::NetworkRef>().and_then(|r| r.upgrade())
+        } else {
+            None
+        };
         let resp_pad = req.headers().get(H_RESP_PAD).and_then(|s| s.parse::<usize>().ok());
         let from = req.peer_id().copied();
         let origin = req
@@ -360,6 +365,7 @@ impl tower::Service<Request<Bytes>> for HarnessService {
         };
         let body = req.into_body();
         Box::pin(async move {
+            let _held_ref = held_ref;
             if script.delay_us == NEVER {
                 futures::future::pending::<()>().await;
             } else if script.delay_us > 0 {
